@@ -208,6 +208,7 @@ def lcsDrv (ts : List Ty) : Option Ty :=
   match ts' with
   | [] => if ts.isEmpty then none else some never
   | t :: r =>
+    if ts'.any (fun t => match t with | .opt _ => true | _ => false) then some lcsUnknown else
     if r.all (· == t) then some t else
     match primNames ts' with
     | some ns =>
@@ -282,6 +283,7 @@ def specJudge (t : Ty) (go : String) : Option (String × String) :=
   | "reject" :: cls :: _ =>
     if cls == "user" then none else some ("reject-" ++ cls, "invalid-argument user error")
   | ["static-reject"] => none
+  | ["skip-non-address-location"] => none
   | _ => some ("go-panic-or-unexpected", "accept or user error")
 
 def judgeArg (tS sx go : String) : Verdict :=
@@ -293,6 +295,7 @@ def judgeArg (tS sx go : String) : Verdict :=
     | some (cls, says) => .violation cls says [headTag t]
     | none =>
       if go == "static-reject" then .skip "static-reject" else
+      if go == "skip-non-address-location" then .skip "non-address-location" else
       if sx == "!oof" then .skip "oof" else
       let arg : Option (Option XV) :=
         if sx == "!decode" then some none else (parseValue sx).map fun p => some p.1
